@@ -41,6 +41,9 @@ def programs(n):
     P.append({"expr": ("op", "ensure_bool", I(0)), "kinds": ["S"]})
     P.append({"expr": ("op", "privvalbool", I(0)), "kinds": ["V"]})
     P.append({"expr": ("op", "pubvalbool", I(0)), "kinds": ["V"]})
+    # equality assertion on whole arrays (two elements each)
+    for kinds in (("S", "S", "S", "S"), ("S", "S", "K", "S")):
+        P.append({"expr": ("op", "array_assert_eq", I(0), I(1), I(2), I(3)), "kinds": list(kinds)})
     for bk in ("B", "Z"):
         P.append({"expr": ("op", "unpack_intmod", I(0), I(1), I(2), I(3)), "kinds": ["M", bk, bk, bk]})
     return P
@@ -228,7 +231,9 @@ def run(ctx):
     for n, p in cfgs:
         vals = E.D(n)
         for prog in programs(n):
-            if len(prog["kinds"]) == 3 and prog["kinds"][0] != "M" and n >= 4:
+            if prog["expr"][1] == "array_assert_eq":
+                vals_ = [-2, 0, 1, 2, 5]
+            elif len(prog["kinds"]) == 3 and prog["kinds"][0] != "M" and n >= 4:
                 vals_ = list(range(-5, 6)) + [2 ** n - 1, 2 ** n, 2 ** n + 1, -(2 ** n)]
             else:
                 vals_ = vals
@@ -237,7 +242,7 @@ def run(ctx):
     wide = [(17, REC.BN128)] if not ctx.thorough else [(8, REC.BN128), (16, REC.BN128), (17, REC.BLS12_381), (33, REC.CURVE25519), (64, REC.BN128)]
     for n, p in wide:
         for prog in programs(n):
-            if prog["kinds"][0] == "M":
+            if prog["kinds"][0] == "M" or prog["expr"][1] == "array_assert_eq":
                 continue
             if len(prog["kinds"]) == 3:
                 vals_ = [-1, 0, 1, 2 ** (n - 1) - 1, 2 ** (n - 1) + 5, 2 ** n - 1, 2 ** n]
@@ -266,7 +271,7 @@ def run(ctx):
     ctx.cov["exhaustive"] = agg["undecided"] == 0 and agg["capped"] == 0
     ctx.cov["rule"] = ("assertion programs (assert_lt/le/eq/ne/gt/ge x SS/SK/BB/BK, assert_zero/nonzero/positive, "
                        "assert_positive(w) and to_bits(w) for every w in 1..n+1, assert_range x 3 kind combinations, "
-                       "LinCombBool(x), _ensurebool, PrivValBool, PubValBool, PackIntMod(m).unpack for m in 2..8) x every "
+                       "LinCombBool(x), _ensurebool, PrivValBool, PubValBool, PackIntMod(m).unpack for m in 2..8, Array.assert_eq on two-element arrays) x every "
                        "operand vector of D(n), and of a boundary lattice for the bitlengths 17 (quick) / 8, 16, 17, 33, 64 (thorough); per vector: accepted / satisfiable (all witness choices, exact engine, "
                        "two ways) / relation; distinct_outcomes counts satisfiable verdicts (both sides of every "
                        "relation occur)")
